@@ -410,20 +410,33 @@ def freshState (ca cb cc : Cap) : MState :=
     ver := fun f => if f == .resources then 2 else 0,
     cnt := fun f => if f == .resources then 2 else 0 }
 
+/-- one slot at an effective change of kind `k` (`servedMid`: a held fan-out of the kind has already
+written to this slot: what it writes from now on was decided before this change) -/
+def changeSlot (k : Kind) (servedMid : Bool) (d : MSlot) : MSlot :=
+  let d := if servedMid && !d.midFan.contains k then { d with midFan := d.midFan ++ [k] } else d
+  if d.connected && !d.owed.contains k then { d with owed := d.owed ++ [k] } else d
+
+def bumpV (ver : FSet → Nat) (f : FSet) : FSet → Nat :=
+  fun f' => if f' == f then ver f + 1 else ver f'
+
+def bumpC (cnt : FSet → Nat) (f : FSet) (e : Eff) : FSet → Nat :=
+  fun f' => if f' == f then (match e with | .add => cnt f + 1 | .remove => cnt f - 1 | _ => cnt f) else cnt f'
+
+/-- the slots a held fan-out of kind `k` has already written to -/
+def servedMidOf (fans : Kind → Option MFan) (k : Kind) : List Slot :=
+  match fans k with
+  | some fan => fan.served
+  | none => []
+
 /-- `change f e`, answered `ok`: an effective change of a kind whose capability is not switched off puts
 every connected session in debt. -/
 def monChange (m : MState) (f : FSet) (e : Eff) : MState :=
   if e == .noop || (e == .remove && m.cnt f == 0) then m else
   let k := kindOfFSet f
-  let m := { m with ver := fun f' => if f' == f then m.ver f + 1 else m.ver f',
-                    cnt := fun f' => if f' == f then (match e with | .add => m.cnt f + 1 | .remove => m.cnt f - 1 | _ => m.cnt f) else m.cnt f' }
+  let m := { m with ver := bumpV m.ver f, cnt := bumpC m.cnt f e }
   if m.cap k == .off then m else
   -- a held fan-out of the kind: what it writes from now on was decided before this change
-  let servedMid : List Slot := match m.fans k with | some fan => fan.served | none => []
-  { m with slots := fun i =>
-      let d := m.slots i
-      let d := if servedMid.contains i && !d.midFan.contains k then { d with midFan := d.midFan ++ [k] } else d
-      if d.connected && !d.owed.contains k then { d with owed := d.owed ++ [k] } else d }
+  { m with slots := fun i => changeSlot k ((servedMidOf m.fans k).contains i) (m.slots i) }
 
 /-- the clause a delivery of a complete fan-out (`cbrun k`) raises -/
 def cbDeliveryClause (m : MState) (k : Kind) (x : SDelivery) : Option Clause :=
